@@ -1,10 +1,20 @@
 (* C11 property theorems: statements only; proofs live in Proofs/{ToposortPerm,SortByIndices,C11}.v *)
-From Coq Require Import List Arith Permutation.
-From TS Require Import Model.Str Model.Outcome Model.Types Model.TopsortAlgo Model.Topsort.
-From TS Require Proofs.ToposortPerm Proofs.SortByIndices Proofs.C11.
+From Coq Require Import List Arith Permutation String.
+From TS Require Import Model.Str Model.Outcome Model.Types Model.TopsortAlgo Model.Topsort Spec.C11Spec.
+From TS Require Proofs.ToposortPerm Proofs.SortByIndices Proofs.C11 Proofs.C11Link.
 Import ListNotations.
 Local Notation length := List.length (only parsing).
 Local Open Scope nat_scope.
+Local Open Scope string_scope.
+Local Open Scope list_scope.
+(* builders of the witness items (plain records with empty comments/decorators; Proofs/C11Link.v) *)
+Local Notation w_struct := Proofs.C11Link.w_struct.
+Local Notation w_alias := Proofs.C11Link.w_alias.
+Local Notation w_const := Proofs.C11Link.w_const.
+Local Notation w_enum := Proofs.C11Link.w_enum.
+Local Notation w_field := Proofs.C11Link.w_field.
+Local Notation w_vsh := Proofs.C11Link.w_vsh.
+Local Notation w_s := Proofs.C11Link.w_s.
 
 (* EVERY graph with in-range entries - cycles, self-loops, duplicate edges - is mapped to a
    permutation of its node indices; no panic, fuel S n suffices *)
@@ -41,9 +51,9 @@ Theorem C11_topsort_permutation :
 Proof. exact Proofs.C11.topsort_permutation. Qed.
 Print Assumptions C11_topsort_permutation.
 
-(* partial form of the ordering half: topological with respect to the COLLECTED graph; that the
-   collected graph contains every declarative reference outside the finding classes
-   (Spec/C11Spec.v known_C11) is validated by the correspondence check, not yet proved *)
+(* partial form of the ordering half: topological with respect to the COLLECTED graph (any item
+   list, any rank).  The step from the collected graph to the declarative references is
+   C11_collected_graph_is_reference_graph below; the complete statement is C11_topsort_topological *)
 Theorem C11_topsort_respects_collected_graph_partial :
   forall (things : list ritem) (dag : list (list nat)) (d : ritem) (rank : nat -> nat),
     build_dag things = Ok dag ->
@@ -53,3 +63,129 @@ Theorem C11_topsort_respects_collected_graph_partial :
               (forall r1 x r2 deps, r = r1 ++ x :: r2 -> nth_error dag x = Some deps -> incl deps r1).
 Proof. exact Proofs.C11.topsort_respects_dag. Qed.
 Print Assumptions C11_topsort_respects_collected_graph_partial.
+
+(* ---------------------------------------------------------------------------------------------
+   The ordering half, end to end.  [refers], [acyclic], [topo_ok], [known_C11] are the declarative
+   definitions of Spec/C11Spec.v (they never call the collectors of Model/Topsort.v). *)
+
+(* THE COMPLETENESS LINK.  Outside the finding classes dependency collection succeeds (no fuel
+   exhaustion, no unwrap/expect panic) and the collected graph is the reference relation, row by
+   row: the row of a struct, alias or const holds exactly the positions of the items it refers to;
+   an enum refers to nothing and its row is empty or starts with its own position (which makes
+   toposort_impl skip the row) *)
+Theorem C11_collected_graph_is_reference_graph :
+  forall things : list ritem, known_C11 things = None ->
+    exists dag, build_dag things = Ok dag /\
+      forall i a row, nth_error things i = Some a -> nth_error dag i = Some row ->
+        if Proofs.C11Link.is_enum a
+        then (forall b, In b things -> refers a b = false) /\ (row = [] \/ exists rest, row = i :: rest)
+        else forall j b, nth_error things j = Some b -> (In j row <-> refers a b = true).
+Proof. exact Proofs.C11Link.collected_rows_are_references. Qed.
+Print Assumptions C11_collected_graph_is_reference_graph.
+
+(* THE PROPERTY'S ORDERING HALF: for every item list outside the finding classes whose reference
+   relation is acyclic, topsort succeeds, emits a permutation of the items, and no emitted
+   definition refers to a definition emitted after it *)
+Theorem C11_topsort_topological :
+  forall things : list ritem, known_C11 things = None -> acyclic things = true ->
+    exists out, topsort things = Ok out /\ Permutation out things /\ topo_ok out = true.
+Proof. exact Proofs.C11Link.topsort_topological. Qed.
+Print Assumptions C11_topsort_topological.
+
+(* what topo_ok = true means position-wise *)
+Theorem C11_topo_ok_meaning :
+  forall out : list ritem, topo_ok out = true <->
+    forall o1 a o2 b, out = o1 ++ a :: o2 -> In b o2 -> refers a b = false.
+Proof. exact Proofs.C11Link.topo_ok_spec. Qed.
+Print Assumptions C11_topo_ok_meaning.
+
+(* the permutation half without the `build_dag = Ok` premise: unless an alias has a generic
+   parameter named like an item, collection cannot fail - cycles and duplicate names included *)
+Theorem C11_topsort_total_permutation :
+  forall things : list ritem, alias_generic_shadows things = false ->
+    exists out, topsort things = Ok out /\ Permutation out things.
+Proof. exact Proofs.C11Link.topsort_total. Qed.
+Print Assumptions C11_topsort_total_permutation.
+
+(* both halves as the verdict predicate the check evaluates on the real output: it holds of the
+   model's output for EVERY input outside the classes (acyclic or not) *)
+Theorem C11_topsort_good :
+  forall things : list ritem, known_C11 things = None ->
+    exists out, topsort things = Ok out /\ good_C11 things out = true.
+Proof. exact Proofs.C11Link.topsort_good. Qed.
+Print Assumptions C11_topsort_good.
+
+(* the cycle `return` fires on the first entry of a row that starts with its own index: such rows
+   (the ones algebraic enums produce) are ignored *)
+Theorem C11_toposort_impl_ignores_self_started_rows :
+  forall g : graph, toposort_impl g = toposort_impl (Proofs.C11Link.clean g).
+Proof. exact Proofs.C11Link.toposort_impl_clean. Qed.
+Print Assumptions C11_toposort_impl_ignores_self_started_rows.
+
+(* the unrestricted ordering statement is false of the faithful model: one failing input per
+   finding class. c11_refutes c w := known_C11 w = Some c /\ acyclic w = true /\
+   exists out, topsort w = Ok out /\ topo_ok out = false *)
+
+(* struct A<T> { f: T, g: B }  struct B {}  struct T { f: A<u8> } *)
+Theorem C11_generic_param_shadow_refuted :
+  Proofs.C11Link.c11_refutes "C11-generic-param-shadow"
+    [w_struct "A" ["T"] [w_s "T"; w_s "B"]; w_struct "B" [] []; w_struct "T" [] [RGeneric (lit "A") [RPrim PU8]]].
+Proof. exact Proofs.C11Link.C11_generic_param_shadow_refuted. Qed.
+Print Assumptions C11_generic_param_shadow_refuted.
+
+(* struct A { f: G<Vec<u8>>, g: B }  struct B {}  struct G<T> { f: T }  struct Vec { f: A } *)
+Theorem C11_special_id_collision_refuted :
+  Proofs.C11Link.c11_refutes "C11-special-id-collision"
+    [w_struct "A" [] [RGeneric (lit "G") [RVec (RPrim PU8)]; w_s "B"]; w_struct "B" [] [];
+     w_struct "G" ["T"] [w_s "T"]; w_struct "Vec" [] [w_s "A"]].
+Proof. exact Proofs.C11Link.C11_special_id_collision_refuted. Qed.
+Print Assumptions C11_special_id_collision_refuted.
+
+(* type A<T> = Vec<T>;  struct T { f: A<u8> } *)
+Theorem C11_alias_generic_shadow_refuted :
+  Proofs.C11Link.c11_refutes "C11-alias-generic-shadow"
+    [w_alias "A" ["T"] (RVec (w_s "T")); w_struct "T" [] [RGeneric (lit "A") [RPrim PU8]]].
+Proof. exact Proofs.C11Link.C11_alias_generic_shadow_refuted. Qed.
+Print Assumptions C11_alias_generic_shadow_refuted.
+
+(* struct A { f: X }  struct X {}  const X: u32 *)
+Theorem C11_duplicate_names_refuted :
+  Proofs.C11Link.c11_refutes "C11-duplicate-names"
+    [w_struct "A" [] [w_s "X"]; w_struct "X" [] []; w_const "X" (RPrim PU32)].
+Proof. exact Proofs.C11Link.C11_duplicate_names_refuted. Qed.
+Print Assumptions C11_duplicate_names_refuted.
+
+(* enum E { V { f: B } }  struct B {} *)
+Theorem C11_variant_fields_refuted :
+  Proofs.C11Link.c11_refutes "C11-variant-fields" [w_enum "E" [VAnon [w_field (w_s "B")] w_vsh]; w_struct "B" [] []].
+Proof. exact Proofs.C11Link.C11_variant_fields_refuted. Qed.
+Print Assumptions C11_variant_fields_refuted.
+
+(* enum E { V(B) }  struct B {} *)
+Theorem C11_enum_self_edge_refuted :
+  Proofs.C11Link.c11_refutes "C11-enum-self-edge" [w_enum "E" [VTuple (w_s "B") w_vsh]; w_struct "B" [] []].
+Proof. exact Proofs.C11Link.C11_enum_self_edge_refuted. Qed.
+Print Assumptions C11_enum_self_edge_refuted.
+
+(* struct A { f: Unknown<B> }  struct B {} *)
+Theorem C11_generic_arg_depth_refuted :
+  Proofs.C11Link.c11_refutes "C11-generic-arg-depth"
+    [w_struct "A" [] [RGeneric (lit "Unknown") [w_s "B"]]; w_struct "B" [] []].
+Proof. exact Proofs.C11Link.C11_generic_arg_depth_refuted. Qed.
+Print Assumptions C11_generic_arg_depth_refuted.
+
+(* struct Foo<T> { f: Foo<Zed> }  struct Zed {}: the arguments of a Generic named like the collecting item are never visited *)
+Theorem C11_generic_arg_depth_own_name_refuted :
+  Proofs.C11Link.c11_refutes "C11-generic-arg-depth"
+    [w_struct "Foo" ["T"] [RGeneric (lit "Foo") [w_s "Zed"]]; w_struct "Zed" [] []].
+Proof. exact Proofs.C11Link.C11_generic_arg_depth_own_name_refuted. Qed.
+Print Assumptions C11_generic_arg_depth_own_name_refuted.
+
+(* type A = Vec<SR>;  #[serde(rename = "SR")] struct S {} *)
+Theorem C11_renamed_refuted :
+  Proofs.C11Link.c11_refutes "C11-renamed"
+    [w_alias "A" [] (RVec (w_s "SR"));
+     ItStruct {| sid := {| original := lit "S"; renamed := lit "SR"; via_serde_rename := true |}; sgenerics := [];
+                 sfields := []; scomments := []; sdecs := []; sredacted := false |}].
+Proof. exact Proofs.C11Link.C11_renamed_refuted. Qed.
+Print Assumptions C11_renamed_refuted.
